@@ -46,6 +46,7 @@ def run(facts, res):
     for b in leaf:
         check_write_once(b, facts, res, "S1")
         check_listing(b, facts, res)
+        check_listing_complete(b, facts, res)
         check_ranged_read(b, facts, res)
     for b in wrap:
         check_wrapper(b, facts, res)
@@ -139,6 +140,56 @@ def check_listing(b, facts, res):
     if not ok:
         res.violation("S2", "%s|no-suffix-strip" % body.path,
                       "%s::list_objects can return a key that did not pass through ends_with(ext) + strip_suffix(ext): %s" % (b.name(), why), body.loc())
+
+
+def check_listing_complete(b, facts, res):
+    """S2c: `exactly the matching keys`: a key is produced under no other condition than `ends_with(ext)` (plus the
+    structural tests of walking the store: iteration, Ok of directory reads, is_file / is_dir)"""
+    from ..conds import closure_result_lits
+    body = b.methods["list_objects"]
+    if b.name().startswith("Solid"):
+        return
+    n = 0
+
+    def judge(where, lits, loc):
+        nonlocal n
+        n += 1
+        extra = []
+        for l in lits:
+            if l.kind == "variant":
+                continue
+            if l.kind == "call":
+                nm = callee_name(l.term)
+                if nm in ("ends_with",) and l.truth is True:
+                    continue
+                if nm in ("is_file", "is_dir", "is_ok", "is_some") and l.truth is True:
+                    continue
+                if nm in ("is_err", "is_none", "is_empty") :
+                    continue
+            if l.kind == "flag":
+                continue
+            extra.append(repr(l))
+        res.instance("S2", "%s::list_objects: keys are produced under ends_with(ext) and structural tests only (%s): %s" % (b.name(), where, not extra), loc)
+        if extra:
+            res.violation("S2", "%s|listing-excludes-keys" % b.name(),
+                          "%s::list_objects produces a key only under the further condition %s: keys that end with the suffix are missing from the listing "
+                          "(the contract says exactly the matching keys)" % (b.name(), extra[0]), loc)
+    for mb in [body] + facts.closures_of(body.path):
+        for bi, t in mb.calls():
+            if t.callee is not None and t.callee.name in ("push", "insert", "push_back") and t.args and "Vec" in (t.callee.path or "") + (t.callee.self_ty or ""):
+                judge("push", lits_of(mb, bi, facts), mb.loc(t.line))
+        if mb.kind == "closure" and mb.local_ty(0) == "bool":
+            ls = closure_result_lits(mb, facts, True)
+            if ls:
+                judge("filter closure", ls, mb.loc())
+        if mb.kind == "closure" and mb.local_ty(0).startswith("std::option::Option<"):
+            for blk in mb.blocks:
+                if blk.cleanup:
+                    continue
+                for st in blk.stmts:
+                    if st.kind == "assign" and st.place.local == 0 and not st.place.proj and st.rv.kind == "agg" and st.rv.j.get("variant") == "Some":
+                        judge("filter_map closure", lits_of(mb, blk.idx, facts), mb.loc(st.line))
+    res.floor("S2", "%s key-producing sites" % b.name(), n, 1)
 
 
 def ext_derived(t, ext_names):
@@ -441,6 +492,30 @@ def check_ranged_read(b, facts, res):
                 res.violation("S4", "%s|short-read" % b.name(),
                               "%s::read_object calls Read::read, which may return fewer bytes than requested (use read_exact / read_to_end): "
                               "a ranged read of a large value would come back partly zero-filled" % b.name(), m.loc(t.line))
+    # S4c: an explicit bounds test refuses a slice only when it really exceeds the value: offset + length == len is in range
+    from ..common import assigns_of_return as _aor
+    for m in members:
+        for ob, st in _aor(m, "Err"):
+            for l in lits_of(m, ob, facts):
+                if l.kind != "cmp" or l.truth is None:
+                    continue
+                op, a_, c_ = l.term[1], l.term[2], l.term[3]
+
+                def is_end(t_):
+                    nm = {x[2] for x in walk(t_) if x[0] in ("param", "upvar")}
+                    return "offset" in nm and "length" in nm
+                def is_len(t_):
+                    return any(x[0] == "call" and callee_name(x) == "len" for x in walk(t_))
+                if not ((is_end(a_) and is_len(c_)) or (is_end(c_) and is_len(a_))):
+                    continue
+                eq_result = {"Gt": False, "Lt": False, "Ge": True, "Le": True, "Eq": True, "Ne": False}.get(op.replace("WithOverflow", ""))
+                refuses_equal = eq_result is not None and (eq_result == l.truth)
+                res.instance("S4", "%s::read_object: bounds test `%s` (taken: %s) refuses the slice that ends exactly at the end of the value: %s" % (
+                    b.name(), op, l.truth, refuses_equal), m.loc(st.line))
+                if refuses_equal:
+                    res.violation("S4", "%s|in-range-slice-refused" % b.name(),
+                                  "%s::read_object returns an error when offset + length equals the length of the value (`%s`): the last byte / the "
+                                  "explicit full range is an in-range slice that the sibling backends serve" % (b.name(), op), m.loc(st.line))
     ok = found_len0 and found_sum and found_start
     res.instance("S4", "%s::read_object: tests length==0:%s offset==0:%s; slice start=offset:%s end=offset+length:%s" % (
         b.name(), found_len0, found_off0, found_start, found_sum), body.loc())
